@@ -595,6 +595,18 @@ class Interp:
         if clo[0] == 'fnptr':
             body = self.facts.body(clo[1])
             if body is None:
+                # a tuple-variant / tuple-struct constructor used as a function (`.map_err(StoreError::ConsistencyError)`)
+                nm_ = clo[1]
+                if '::' in nm_:
+                    an_, vn_ = nm_.rsplit('::', 1)
+                    a_ = self.facts.adts.get(an_)
+                    if a_ is not None:
+                        for vi_, v_ in enumerate(a_['variants']):
+                            if v_['name'] == vn_ and len(v_['fields']) == len(args):
+                                return ('adt', an_, vi_, [Cell(x) for x in args])
+                    a_ = self.facts.adts.get(nm_)
+                    if a_ is not None and a_['kind'] == 'struct' and len(a_['variants'][0]['fields']) == len(args):
+                        return ('adt', nm_, 0, [Cell(x) for x in args])
                 return self.model_call(clo[1], args, None, depth)
             return self.run_body(body, args, depth + 1)
         if clo[0] != 'closure':
